@@ -126,7 +126,7 @@ Section Expanders.
   (* expand_four_sides: 1-4 values go to top/right/bottom/left as CSS 2.1 8.3 says (four_spec), 0 or more
      than 4 are invalid *)
   Theorem C07_four_sides_rule tokens name :
-    any_var tokens = false ->
+    any_var tokens = false -> (List.length tokens = 1%nat \/ has_wide_keyword tokens = false) ->
     expand_four_sides V0 known supported prop_validator tokens name =
     match four_spec tokens with
     | None => Invalid
@@ -140,8 +140,15 @@ Section Expanders.
   Proof. exact (four_sides_count tokens). Qed.
 
   (* ... and what it yields is what the four longhand declarations yield *)
+  (* inherit / initial are only valid as the whole value (css-cascade 7.3) *)
+  Theorem C07_wide_keyword_only_alone tokens name :
+    any_var tokens = false -> (2 <= List.length tokens)%nat -> has_wide_keyword tokens = true ->
+    expand_four_sides V0 known supported prop_validator tokens name = Invalid.
+  Proof. exact (wide_keyword_only_alone V0 known supported prop_validator tokens name). Qed.
+
   Theorem C07_four_sides_equals_longhands tokens name top right_ bottom left_ out :
-    any_var tokens = false -> four_spec tokens = Some (top, right_, bottom, left_) ->
+    any_var tokens = false -> (List.length tokens = 1%nat \/ has_wide_keyword tokens = false) ->
+    four_spec tokens = Some (top, right_, bottom, left_) ->
     Forall (fun n => known n = true /\ supported n = true) (four_names name) ->
     expand_four_sides V0 known supported prop_validator tokens name = Ok out ->
     Forall2 (fun nv nt => vns [snd nt] (fst nt) false = Ok [nv])
@@ -202,6 +209,7 @@ Section Expanders.
 End Expanders.
 Print Assumptions C07_four_sides_rule.
 Print Assumptions C07_four_sides_count.
+Print Assumptions C07_wide_keyword_only_alone.
 Print Assumptions C07_four_sides_equals_longhands.
 Print Assumptions C07_shorthand_sets_every_longhand.
 Print Assumptions C07_omitted_longhands_are_initial.
@@ -212,10 +220,10 @@ Print Assumptions C07_columns_order_free.
 
 (* flex: none | [ <grow> <shrink>? || <basis> ]: g, s numbers, b a basis that is not a number, z the unitless zero *)
 Theorem C07_flex_rule is_flex_basis flex_factor g s b z G S Z0 :
-  get_keyword g = None -> is_int_zero g = false -> is_flex_basis g = false -> flex_factor g = Some G ->
-  get_keyword s = None -> is_int_zero s = false -> is_flex_basis s = false -> flex_factor s = Some S ->
-  is_int_zero b = false -> is_flex_basis b = true -> kw_is b "none" = false -> flex_factor b = None ->
-  is_int_zero z = true -> get_keyword z = None -> flex_factor z = Some Z0 -> is_flex_basis z = true ->
+  get_keyword g = None -> is_num_zero g = false -> is_flex_basis g = false -> flex_factor g = Some G ->
+  get_keyword s = None -> is_num_zero s = false -> is_flex_basis s = false -> flex_factor s = Some S ->
+  is_num_zero b = false -> is_flex_basis b = true -> kw_is b "none" = false -> flex_factor b = None ->
+  is_num_zero z = true -> get_keyword z = None -> flex_factor z = Some Z0 -> is_flex_basis z = true ->
   let yield g s b := Ok [("-grow", [num_tok g]); ("-shrink", [num_tok s]); ("-basis", [b])] in
   let flex := flex_inner is_flex_basis flex_factor in
   flex [TIdent "none" "none"] = yield (0%Q, Some 0%Z) (0%Q, Some 0%Z) AUTO /\
@@ -226,6 +234,15 @@ Theorem C07_flex_rule is_flex_basis flex_factor g s b z G S Z0 :
   flex [g; s; g] = Invalid /\ flex [b; b] = Invalid.
 Proof. exact (flex_rule is_flex_basis flex_factor g s b z G S Z0). Qed.
 Print Assumptions C07_flex_rule.
+
+(* the two flex factors must be next to each other *)
+Theorem C07_flex_rejects_basis_between_factors is_flex_basis flex_factor g s b G S :
+  get_keyword g = None -> is_num_zero g = false -> is_flex_basis g = false -> flex_factor g = Some G ->
+  is_num_zero s = false -> is_flex_basis s = false -> flex_factor s = Some S ->
+  is_num_zero b = false -> is_flex_basis b = true ->
+  flex_inner is_flex_basis flex_factor [g; b; s] = Invalid.
+Proof. exact (flex_rejects_basis_between_factors is_flex_basis flex_factor g s b G S). Qed.
+Print Assumptions C07_flex_rejects_basis_between_factors.
 
 (* ---- 4. units (css/utils.py LENGTHS_TO_PIXELS, css/computed_values.py length) ---- *)
 Theorem C07_unit_table_exact :
@@ -275,49 +292,50 @@ Print Assumptions C07_source_equal_lengths_interchangeable.
    Subst env key fallback var_name: textual substitution (model/C07Var.v); the implementation stores --a-b under
    `__a-b` (impl_key: the exact name, `--` replaced by `__`) and takes as fallback the arguments after the first
    comma, commas included (impl_fallback). *)
-Theorem C07_var_is_substitution env fuel tokens r :
-  solved_tokens env fuel tokens = Some r ->
-  SubstL env impl_key impl_fallback impl_var_name [] tokens r.
-Proof. exact (solved_tokens_sound env fuel tokens r). Qed.
+Theorem C07_var_is_substitution env fuel tokens o :
+  solved_tokens env fuel tokens = Some o ->
+  SubstL env impl_key impl_fallback impl_has_fallback impl_var_name [] tokens o.
+Proof. exact (solved_tokens_sound env fuel tokens o). Qed.
 Print Assumptions C07_var_is_substitution.
 
 (* every reference is substituted by itself: the tokens of a declaration are resolved one by one, what one
    reference gives does not depend on the references around it - their names, their fallbacks (a memo per style
    keyed by the property's name alone would break this) *)
 Theorem C07_var_references_independent env fuel before t after r :
-  solved_tokens env fuel (before ++ t :: after) = Some r ->
+  solved_tokens env fuel (before ++ t :: after) = Some (SOk r) ->
   exists rb rt ra, r = (rb ++ rt ++ ra)%list /\
-                   solved_tokens env fuel before = Some rb /\ solved_tokens env fuel [t] = Some rt /\
-                   solved_tokens env fuel after = Some ra.
+                   solved_tokens env fuel before = Some (SOk rb) /\ solved_tokens env fuel [t] = Some (SOk rt) /\
+                   solved_tokens env fuel after = Some (SOk ra).
 Proof. exact (references_are_independent env fuel before t after r). Qed.
 Print Assumptions C07_var_references_independent.
 
-(* a reference to a defined property does not look at its fallback *)
-Theorem C07_var_fallback_unused_when_defined env fuel ps n ln v lv fb1 fb2 :
-  env (var_key v) <> [] ->
-  has_var (TFunc n ln (TIdent v lv :: TLit "," :: fb1)) = true ->
-  has_var (TFunc n ln (TIdent v lv :: TLit "," :: fb2)) = true -> String.eqb ln "var" = true ->
-  resolve_var env fuel ps (TFunc n ln (TIdent v lv :: TLit "," :: fb1)) =
-  resolve_var env fuel ps (TFunc n ln (TIdent v lv :: TLit "," :: fb2)).
-Proof. exact (fallback_unused_when_defined env fuel ps n ln v lv fb1 fb2). Qed.
+(* a reference to a property whose value substitutes well does not look at its fallback *)
+Theorem C07_var_fallback_unused_when_defined env fuel ps n ln v lv fb e0 erest l :
+  env (var_key v) = e0 :: erest -> str_in (var_key v) ps = false ->
+  subst_each (resolve_var env fuel (ps ++ [var_key v])) (e0 :: erest) = Some (SOk l) ->
+  has_var (TFunc n ln (TIdent v lv :: TLit "," :: fb)) = true -> String.eqb ln "var" = true ->
+  resolve_var env (S fuel) ps (TFunc n ln (TIdent v lv :: TLit "," :: fb)) = Some (RToks l).
+Proof. exact (fallback_unused_when_defined env fuel ps n ln v lv fb e0 erest l). Qed.
 Print Assumptions C07_var_fallback_unused_when_defined.
-
-(* acyclic definitions (ranked): some fuel is enough, and then any more *)
-Theorem C07_var_fuel_sufficient env rk n tokens :
-  ranked env rk -> Forall (fun t => refs_lt rk n t = true) tokens ->
-  exists F, forall f, (F <= f)%nat ->
-    exists r, solved_tokens env f tokens = Some r /\ SubstL env impl_key impl_fallback impl_var_name [] tokens r.
-Proof. exact (fun H => solved_tokens_fuel_sufficient env rk H n tokens). Qed.
-Print Assumptions C07_var_fuel_sufficient.
 
 (* a reference to an undefined property is its own fallback ... *)
 Theorem C07_var_fallback_used_when_undefined env fuel ps n ln v lv fb :
   env (var_key v) = [] -> str_in (var_key v) ps = false ->
   has_var (TFunc n ln (TIdent v lv :: TLit "," :: fb)) = true -> String.eqb ln "var" = true ->
   resolve_var env (S fuel) ps (TFunc n ln (TIdent v lv :: TLit "," :: fb)) =
-  match subst_each (resolve_var env fuel ps) (remove_whitespace fb) with Some l => Some (RToks l) | None => None end.
+  lift (subst_each (resolve_var env fuel ps) (remove_whitespace fb)).
 Proof. exact (fallback_used_when_undefined env fuel ps n ln v lv fb). Qed.
 Print Assumptions C07_var_fallback_used_when_undefined.
+
+(* ... so is a reference to a property that is invalid at computed-value time (a cycle) *)
+Theorem C07_var_fallback_used_when_invalid env fuel ps n ln v lv fb e0 erest :
+  env (var_key v) = e0 :: erest -> str_in (var_key v) ps = false ->
+  subst_each (resolve_var env fuel (ps ++ [var_key v])) (e0 :: erest) = Some SInvalid ->
+  has_var (TFunc n ln (TIdent v lv :: TLit "," :: fb)) = true -> String.eqb ln "var" = true ->
+  resolve_var env (S fuel) ps (TFunc n ln (TIdent v lv :: TLit "," :: fb)) =
+  lift (subst_each (resolve_var env fuel ps) (remove_whitespace fb)).
+Proof. exact (fallback_used_when_invalid env fuel ps n ln v lv fb e0 erest). Qed.
+Print Assumptions C07_var_fallback_used_when_invalid.
 
 (* ... and the fallback is the textual remainder after the first comma, commas included: the grammar's
    var( <custom-property-name> [, <declaration-value>]? ) (css_fallback), whatever the white space around the name *)
@@ -336,14 +354,26 @@ Theorem C07_var_distinct_names_distinct_properties x y :
 Proof. exact (distinct_names_distinct_properties x y). Qed.
 Print Assumptions C07_var_distinct_names_distinct_properties.
 
-(* where the implementation is NOT substitution (replayed on the implementation by var-direct and the render
-   streams): a reference back into a cycle is erased and the fallback never used (CSS: the whole cycle is invalid,
-   finding F180) *)
-Theorem C07_var_refuted :
+(* acyclic definitions (ranked): some fuel is enough, and then any more *)
+Theorem C07_var_fuel_sufficient env rk n tokens :
+  ranked env rk -> Forall (fun t => refs_lt rk n t = true) tokens ->
+  exists F, forall f, (F <= f)%nat ->
+    exists o, solved_tokens env f tokens = Some o /\
+              SubstL env impl_key impl_fallback impl_has_fallback impl_var_name [] tokens o.
+Proof. exact (fun H => solved_tokens_fuel_sufficient env rk H n tokens). Qed.
+Print Assumptions C07_var_fuel_sufficient.
+
+(* a property that refers to itself, directly or not, is invalid at computed-value time: var(--x, 7) is 7,
+   var(--x) without fallback makes the declaration invalid (unset) *)
+Theorem C07_var_cycle_uses_fallback :
   let env := fun k => if String.eqb k "__x" then [TAtom 1; VAR "--x" []] else [] in
-  solved_tokens env 5 [VAR "--x" [TLit ","; TAtom 7]] = Some [TAtom 1].
-Proof. exact var_refuted. Qed.
-Print Assumptions C07_var_refuted.
+  solved_tokens env 5 [VAR "--x" [TLit ","; TAtom 7]] = Some (SOk [TAtom 7]) /\
+  solved_tokens env 5 [VAR "--x" []; TAtom 2] = Some SInvalid /\
+  (let env2 := fun k => if String.eqb k "__x" then [VAR "--y" []] else
+                        if String.eqb k "__y" then [VAR "--x" []] else [] in
+   solved_tokens env2 6 [VAR "--x" [TLit ","; TAtom 7]; VAR "--y" [TLit ","; TAtom 8]] = Some (SOk [TAtom 7; TAtom 8])).
+Proof. exact cycle_uses_fallback. Qed.
+Print Assumptions C07_var_cycle_uses_fallback.
 
 (* ---- 6. the Pending object of a declaration with var() (css/utils.py Pending.solve) is ONE object for every
    element the rule matches and every longhand of a shorthand.  run reported calls = the calls it receives in
@@ -393,35 +423,38 @@ Theorem C07_four_sides_generator_agrees V0 known supported prop_validator tokens
 Proof. exact (four_sides_gen_agrees V0 known supported prop_validator tokens name). Qed.
 Print Assumptions C07_four_sides_generator_agrees.
 
-(* refuted (finding F161): consumed lazily, a shorthand that is invalid as a whole after substitution still gives
-   the longhands yielded before the invalid component their values - padding: 2px var(--p) with --p: solid *)
-Theorem C07_pending_shorthand_all_or_nothing_refuted :
-  let pv := fun (n : string) (ts : list tok) => match ts with [TAtom k] => Some k | _ => None end in
-  let tokens := [TAtom 2; TIdent "solid" "solid"] in
-  let g := four_sides_gen Z (fun _ => true) (fun _ => true) pv tokens "padding" in
-  expand_four_sides Z (fun _ => true) (fun _ => true) pv tokens "padding" = Invalid /\
-  expander_validate (value Z) "padding" g "padding-top" = Ok (VVal 2%Z) /\
-  expander_validate (value Z) "padding" g "padding-right" = Invalid /\
-  all_or_nothing "padding" g ["padding-top"; "padding-right"; "padding-bottom"; "padding-left"] = false.
-Proof. exact pending_shorthand_applies_partially. Qed.
-Print Assumptions C07_pending_shorthand_all_or_nothing_refuted.
+(* a shorthand that is invalid as a whole after substitution gives no longhand a value: validate() consumes the
+   generator entirely (expander_validate is the eager expander followed by a lookup) *)
+Theorem C07_pending_shorthand_all_or_nothing V (shorthand : string) (g : gen (string * V)) (keys : list string) :
+  all_or_nothing shorthand g keys = true.
+Proof. exact (pending_shorthand_all_or_nothing V shorthand g keys). Qed.
+Print Assumptions C07_pending_shorthand_all_or_nothing.
+
+Theorem C07_expander_validate_is_eager V (shorthand : string) (g : gen (string * V)) (wanted : string) :
+  expander_validate V shorthand g wanted =
+  match gen_result g with
+  | Ok items => match find_key V shorthand items wanted with Some v => Ok v | None => Crash end
+  | Invalid => Invalid
+  | Crash => Crash
+  end.
+Proof. exact (expander_validate_is_eager V shorthand g wanted). Qed.
+Print Assumptions C07_expander_validate_is_eager.
 
 (* refuted (finding var:undefined-dropped): var() of an undefined property without fallback does not invalidate the
    declaration, it is erased from it *)
 Theorem C07_undefined_var_is_erased :
   let env := fun _ : string => @nil tok in
-  solved_tokens env 2 [VAR "--p" []; TWs; TAtom 2] = Some [TWs; TAtom 2] /\
-  solved_tokens env 2 [VAR "--p" []] = Some [].
+  solved_tokens env 2 [VAR "--p" []; TWs; TAtom 2] = Some (SOk [TWs; TAtom 2]) /\
+  solved_tokens env 2 [VAR "--p" []] = Some (SOk []).
 Proof. exact undefined_var_is_erased. Qed.
 Print Assumptions C07_undefined_var_is_erased.
 
 (* ---- 7. ranges of the one-number / one-length properties (model/C07Ranges.v): css_accepts is written from the
    value definitions of the specifications, impl_accepts models the validators' tests; a token is
    (kind 0 number | 1 length | 2 percentage, value, written as an integer?) ---- *)
-(* what a validator accepts its grammar allows - except negative flex factors (finding F133) *)
+(* what a validator accepts its grammar allows *)
 Theorem C07_validators_within_grammar p k v i :
-  impl_accepts p k v i = true ->
-  css_accepts p k v i = true \/ (str_in p NUM_GE_0 = true /\ nonneg v = false).
+  impl_accepts p k v i = true -> css_accepts p k v i = true.
 Proof. exact (validators_within_grammar p k v i). Qed.
 Print Assumptions C07_validators_within_grammar.
 
